@@ -668,7 +668,9 @@ class Check:
         ev = {"property_id": self.pid, "tier": self.tier, "seed": self.seed, "level": "proof", "coverage": cov,
               "assumptions": cfg.get("assumptions", []), "wall_s": round(time.time() - self.t0, 2),
               "violations": len(self.violations)}
-        with open(os.path.join(VERIF, "evidence", self.pid + ".json"), "w") as f:
+        evdir = os.environ.get("VERIF_EVIDENCE_DIR") or os.path.join(VERIF, "evidence")   # seedverify redirects it
+        os.makedirs(evdir, exist_ok=True)
+        with open(os.path.join(evdir, self.pid + ".json"), "w") as f:
             json.dump(ev, f, indent=1, sort_keys=True)
         log("%s: obligations %s/%s, evaluations %s, distinct_nontrivial %s, violations %d, known %d, %.1fs" % (
             self.pid, cov.get("discharged"), cov.get("obligations"), cov.get("evaluations"), cov.get("distinct_nontrivial"),
